@@ -1,15 +1,23 @@
 import CookModel.Lemmas.Collector
+import CookModel.Lemmas.CollectorFold
 /-
   C06  The recipe model is referentially consistent.
 
   Full statement (every recipe the analysis returns, valid or not): `C06_statement` below, an
-  invariant of the collector state.  Proved so far (machine-checked, for every event sequence):
-  the resolution of intermediate references (pure part of `resolve_intermediate_ref`) only ever
-  yields an existing step of the current section or an already finished section.  The remaining
-  clauses (item indices, regular reference back-links, step numbering, no empty content) are
-  decided on every run by the invariant oracle on the implementation's own recipes and by the
-  whole-recipe correspondence with the model; their proof over the monadic collector is work in
-  progress (`C06_statement` is kept at full strength, not weakened).
+  invariant of the collector state.
+
+  Proved (machine-checked, for EVERY event list, well-formed or not, alongside any diagnostics):
+  an invariant `Inv` of the collector state (Lemmas/CollectorFold.lean) holds initially and is
+  preserved by `processEvent` for every event (`C06_invariant_init`, `C06_invariant_step`), and
+  every clause of `RecipeInv` follows for the collector returned by `parseEventsLoop`
+  (`C06_recipe_inv_of_events` and the per-clause theorems).  The only hypothesis on the events is
+  `EvOK`: an ingredient event with intermediate data carries the REF modifier, and a timer event
+  has a name or a quantity.  Both are facts of the parser (`&(…)` sets REF; `timerP` recovers a
+  quantity), but without them the clauses are false of the analysis alone (a nameless,
+  quantity-less timer event is pushed as is; an intermediate reference without REF can later be
+  taken for a definition).  `C06_holds_partial` is `C06_statement` under the hypothesis that the
+  events of `pullEvents` satisfy `EvOK`; that parser-side lemma is what is still missing for
+  `C06_statement` itself, and is decided on every run by the invariant oracle meanwhile.
 -/
 namespace Cook
 variable {α : Type} [Arith α]
@@ -52,5 +60,131 @@ theorem C06_intermediate_ref_partial (content : List Content) (n : Nat) (d : Int
 example : interRefTarget [.step ⟨[.text ['a']], 1⟩, .text ['x'], .step ⟨[.text ['b']], 2⟩] 1 ⟨true, false, 1⟩
     = .ok ⟨.reference 2, some .step⟩ := by rfl
 example : interRefTarget [] 2 ⟨true, true, 2⟩ = .ok ⟨.reference 0, some .section⟩ := by rfl
+
+/-! ### the invariant of the fold -/
+
+/-- the invariant holds of the initial collector -/
+theorem C06_invariant_init (env : Env) : Inv (α := α) env {} := Inv.init env
+
+/-- every event — of a well-formed sequence or not — preserves the invariant: tables only grow, item
+    indices stay in range, back-links stay exact, steps stay numbered, nothing empty is pushed -/
+theorem C06_invariant_step (env : Env) (input : Str) (ev : Ev α) (s : Col α) (hi : Inv env s) (hev : EvOK ev) :
+    Inv env (processEvent env input ev s).2 := processEvent_inv env input ev s hi hev
+
+/-- the collector returned for any event list (valid or not) satisfies the final invariant -/
+theorem C06_invariant_output (env : Env) (input : Str) (evs : List (Ev α)) (c : Col α)
+    (hev : ∀ ev ∈ evs, EvOK ev) (h : (parseEventsLoop env input evs {}).output = some c) : FinalInv env c :=
+  parseEventsLoop_inv env input evs {} c (Inv.init env) hev h
+
+/-- each step item index addresses an existing ingredient / cookware item / timer / inline quantity -/
+theorem C06_item_indices_in_range (env : Env) (input : Str) (evs : List (Ev α)) (c : Col α)
+    (hev : ∀ ev ∈ evs, EvOK ev) (h : (parseEventsLoop env input evs {}).output = some c) :
+    ∀ sec ∈ c.sections, ∀ ct ∈ sec.content, ∀ st, ct = .step st → ∀ it ∈ st.items,
+      (∀ i, it = .ingredient i → i < c.ingredients.size) ∧
+      (∀ i, it = .cookware i → i < c.cookware.size) ∧
+      (∀ i, it = .timer i → i < c.timers.size) ∧
+      (∀ i, it = .inlineQuantity i → i < c.inlineQ.size) := by
+  intro sec hsec ct hct st hst it hit
+  have := (((C06_invariant_output env input evs c hev h).secs sec hsec).2.2 ct hct).2 st hst |>.2 it hit
+  refine ⟨?_, ?_, ?_, ?_⟩ <;> intro i hi <;> rw [hi] at this <;> exact this
+
+/-- a regular ingredient reference points to an EARLIER ingredient that is a definition without the REF
+    modifier, has the same name up to case folding, and lists the referrer back exactly once -/
+theorem C06_reference_backlinks (env : Env) (input : Str) (evs : List (Ev α)) (c : Col α)
+    (hev : ∀ ev ∈ evs, EvOK ev) (h : (parseEventsLoop env input evs {}).output = some c) :
+    ∀ (k : Nat) (ig : Ingredient (ScalableValue α)), c.ingredients[k]? = some ig →
+      ∀ t, ig.relation = ⟨.reference t, some .ingredient⟩ →
+        t < k ∧ ∃ d, c.ingredients[t]? = some d ∧ nameEq env ig.name d.name = true ∧
+          d.modifiers.contains Modifiers.REF = false ∧
+          ∃ rf b, d.relation.relation = .definition rf b ∧ rf.count k = 1 :=
+  (C06_invariant_output env input evs c hev h).itab.backl
+
+/-- the same for cookware: a cookware reference points to an earlier non-REF definition of the same name
+    that lists it back exactly once -/
+theorem C06_cookware_reference_backlinks (env : Env) (input : Str) (evs : List (Ev α)) (c : Col α)
+    (hev : ∀ ev ∈ evs, EvOK ev) (h : (parseEventsLoop env input evs {}).output = some c) :
+    ∀ (k : Nat) (cw : Cookware (ScalableValue α)), c.cookware[k]? = some cw →
+      ∀ t, cw.relation = .reference t →
+        t < k ∧ ∃ d, c.cookware[t]? = some d ∧ nameEq env cw.name d.name = true ∧
+          d.modifiers.contains Modifiers.REF = false ∧
+          ∃ rf b, d.relation = .definition rf b ∧ rf.count k = 1 :=
+  (C06_invariant_output env input evs c hev h).ctab.backl
+
+/-- every `referenced_from` entry of a definition addresses an existing component -/
+theorem C06_referenced_from_in_range (env : Env) (input : Str) (evs : List (Ev α)) (c : Col α)
+    (hev : ∀ ev ∈ evs, EvOK ev) (h : (parseEventsLoop env input evs {}).output = some c) :
+    (∀ (t : Nat) (d : Ingredient (ScalableValue α)), c.ingredients[t]? = some d →
+      ∀ j ∈ d.relation.relation.referencedFrom, j < c.ingredients.size) ∧
+    (∀ (t : Nat) (d : Cookware (ScalableValue α)), c.cookware[t]? = some d →
+      ∀ j ∈ d.relation.referencedFrom, j < c.cookware.size) :=
+  ⟨(C06_invariant_output env input evs c hev h).itab.rfBound, (C06_invariant_output env input evs c hev h).ctab.rfBound⟩
+
+/-- a component that is a reference (regular or intermediate) carries the REF modifier — one half of
+    "reference exactly when REF"; the other half needs the absence of error diagnostics and is not
+    proved here -/
+theorem C06_reference_has_REF_partial (env : Env) (input : Str) (evs : List (Ev α)) (c : Col α)
+    (hev : ∀ ev ∈ evs, EvOK ev) (h : (parseEventsLoop env input evs {}).output = some c) :
+    (∀ (k : Nat) (ig : Ingredient (ScalableValue α)), c.ingredients[k]? = some ig →
+      ig.relation.relation.isReference = true → ig.modifiers.contains Modifiers.REF = true) ∧
+    (∀ (k : Nat) (cw : Cookware (ScalableValue α)), c.cookware[k]? = some cw →
+      cw.relation.isReference = true → cw.modifiers.contains Modifiers.REF = true) :=
+  ⟨(C06_invariant_output env input evs c hev h).itab.refREF, (C06_invariant_output env input evs c hev h).ctab.refREF⟩
+
+/-- no section of the recipe is empty; no text content is empty and no step has an empty item list -/
+theorem C06_no_empty_content (env : Env) (input : Str) (evs : List (Ev α)) (c : Col α)
+    (hev : ∀ ev ∈ evs, EvOK ev) (h : (parseEventsLoop env input evs {}).output = some c) :
+    (∀ sec ∈ c.sections, ¬ sec.isEmpty) ∧
+    (∀ sec ∈ c.sections, ∀ ct ∈ sec.content, ct ≠ .text [] ∧ ∀ st, ct = .step st → st.items ≠ []) := by
+  have hf := C06_invariant_output env input evs c hev h
+  refine ⟨fun sec hsec => (hf.secs sec hsec).1, fun sec hsec ct hct => ?_⟩
+  have := (hf.secs sec hsec).2.2 ct hct
+  exact ⟨this.1, fun st hst => (this.2 st hst).1⟩
+
+/-- the steps of every section are numbered 1, 2, … in order -/
+theorem C06_step_numbers (env : Env) (input : Str) (evs : List (Ev α)) (c : Col α)
+    (hev : ∀ ev ∈ evs, EvOK ev) (h : (parseEventsLoop env input evs {}).output = some c) :
+    ∀ sec ∈ c.sections, ((sec.content.filterMap (fun ct => match ct with | .step st => some st.number | _ => none)) =
+      List.range' 1 (sec.content.filter Content.isStep).length) := by
+  intro sec hsec
+  have := ((C06_invariant_output env input evs c hev h).secs sec hsec).2.1
+  unfold Numbered at this
+  rw [← this]
+  congr 1
+  funext ct
+  cases ct <;> rfl
+
+/-- every timer of the recipe has a name or a quantity (given that the timer events have) -/
+theorem C06_timers_named_or_quantified (env : Env) (input : Str) (evs : List (Ev α)) (c : Col α)
+    (hev : ∀ ev ∈ evs, EvOK ev) (h : (parseEventsLoop env input evs {}).output = some c) :
+    ∀ t ∈ c.timers.toList, t.name.isSome ∨ t.quantity.isSome :=
+  (C06_invariant_output env input evs c hev h).timers
+
+/-- all clauses of `RecipeInv` for the collector returned for ANY list of `EvOK` events -/
+theorem C06_recipe_inv_of_events (env : Env) (input : Str) (evs : List (Ev α)) (c : Col α)
+    (hev : ∀ ev ∈ evs, EvOK ev) (h : (parseEventsLoop env input evs {}).output = some c) : RecipeInv c := by
+  refine ⟨C06_item_indices_in_range env input evs c hev h, ?_, (C06_no_empty_content env input evs c hev h).1,
+    (C06_no_empty_content env input evs c hev h).2, C06_step_numbers env input evs c hev h,
+    C06_timers_named_or_quantified env input evs c hev h⟩
+  intro k ig hk t ht
+  obtain ⟨h1, d, h2, _, _, rf, b, h3, h4⟩ := C06_reference_backlinks env input evs c hev h k ig hk t ht
+  exact ⟨h1, d, h2, rf, b, h3, h4⟩
+
+/-- `C06_statement` under the remaining parser-side hypothesis: the events `pullEvents` emits satisfy
+    `EvOK` (intermediate data only with REF, timers with a name or a quantity).  Missing for
+    `C06_statement`: that lemma about the parser model (`modifiersP`/`timerP`). -/
+theorem C06_holds_partial (env : Env) (input : Str) (c : Col Rat)
+    (hparser : ∀ ev ∈ (pullEvents (α := Rat) env.cs env.ext input).1.toList, EvOK ev)
+    (h : (parseRecipe (α := Rat) env input).output = some c) : RecipeInv c :=
+  C06_recipe_inv_of_events env input _ c hparser h
+
+/-! non-vacuity of `EvOK`: a plain ingredient, an intermediate reference with REF, a named timer -/
+example : ∀ ev ∈ ([.start .step,
+      .ingredient ⟨⟨⟨⟨0⟩, ⟨0, 0⟩⟩, none, Text.empty 0, none, none, none⟩, ⟨0, 0⟩⟩,
+      .ingredient ⟨⟨⟨⟨Modifiers.REF⟩, ⟨0, 0⟩⟩, some ⟨⟨false, false, 1⟩, ⟨0, 0⟩⟩, Text.empty 0, none, none, none⟩, ⟨0, 0⟩⟩,
+      .timer ⟨⟨some (Text.empty 0), none⟩, ⟨0, 0⟩⟩,
+      .stop .step] : List (Ev Rat)), EvOK ev := by
+  intro ev hmem
+  simp only [List.mem_cons, List.mem_nil_iff, or_false] at hmem
+  rcases hmem with rfl | rfl | rfl | rfl | rfl <;> simp [EvOK, Modifiers.contains]
 
 end Cook
